@@ -187,6 +187,12 @@ def r12_3(run):
     sa = [d for ds in defs.values() for d in ds if d[0] == 'expr' and isinstance(d[1], ast.ListComp) and 'str(' in src(d[1].elt) and dotted(d[1].generators[0].iter) == va]
     ok = bool(sa)
     run.ob('R12.3', sc, sc.node, 'non-string values are converted with str()', ok, slot='str-conversion', message='strargs = %s' % [src(d[1]) for d in sa])
+    for d in sa:
+        lc = d[1]
+        tv = lc.generators[0].target.id if isinstance(lc.generators[0].target, ast.Name) else None
+        exact = isinstance(lc.elt, ast.Call) and dotted(lc.elt.func) == 'str' and len(lc.elt.args) == 1 and dotted(lc.elt.args[0]) == tv and not lc.generators[0].ifs
+        run.ob('R12.3', sc, lc, 'keys and values are converted with str() and nothing else', exact, slot='str-conversion-exact',
+               message='set_conf converts its arguments with %s: what is sent (or refused) is no longer the key / value that was given' % src(lc.elt)[:50])
     # odd number of arguments is refused before anything is sent
     tests = [t for t in g.live if t.kind == 'test' and '% 2' in src(t.ast)]
     sinks = g.nodes_where(lambda n: any(isinstance(a, ast.Call) and callee_attr(a) == 'queue_command' for a in node_asts(n)))
@@ -194,7 +200,14 @@ def r12_3(run):
     run.ob('R12.3', sc, sc.node, 'an odd number of arguments sends nothing', ok, slot='odd-args', message='odd argument count is not refused')
 
 
+def r12_4(run):
+    """what set_conf hands to queue_command reaches the wire unchanged: the command-text integrity rule of C01 (R01.2)"""
+    from . import c01
+    borrow(run, c01.r01_2, 'R12.4')
+
+
 RULES = [
+    ('R12.4', 'the command text set_conf builds is queued, encoded and written unchanged (rule R01.2 borrowed)', r12_4),
     ('R12.1', 'quoting is total over the critical characters (space, tab, double quote) and escapes backslash then quote (recognised idioms)', r12_1),
     ('R12.2', 'sanitiser on the path: a test on both CR and LF rejects before the command can be queued/written', r12_2),
     ('R12.3', 'one "SETCONF " command, items key=value joined by one space, even/odd pairing in argument order', r12_3),
@@ -203,6 +216,8 @@ RULES = [
 from ..selftest import M  # noqa: E402
 F = 'txtorcon/torcontrolprotocol.py'
 MUTANTS = [
+    M('args-rstripped', F, "        strargs = [str(x) for x in args]", "        strargs = [str(x).rstrip('\\r\\n') for x in args]", ['R12.3']),
+    M('command-whitespace-collapsed', F, "            cmd = cmd.encode('ascii')\n        d = defer.Deferred()", "            cmd = re.sub(r'\\s+', ' ', cmd).encode('ascii')\n        d = defer.Deferred()", ['R12.4/R01.2']),
     M('no-escape', F, "return '\"%s\"' % s.replace('\\\\', '\\\\\\\\').replace('\"', '\\\\\"')", "return '\"%s\"' % s", ['R12.1']),
     M('escape-order-swapped', F, "s.replace('\\\\', '\\\\\\\\').replace('\"', '\\\\\"')", "s.replace('\"', '\\\\\"').replace('\\\\', '\\\\\\\\')", ['R12.1']),
     M('only-space-quoted', F, "if ' ' in s or '\\t' in s or '\"' in s:", "if ' ' in s:", ['R12.1']),
